@@ -899,7 +899,7 @@ func TestC05(t *testing.T) {
 	})
 	// (i) a backend with partial attribute masks
 	rapidCases(h, "partial-mask", env.PerShard(env.Pick(3000, 60000)), func(rt *rapid.T) partialMaskCase {
-		return partialMaskCase{Native: rapid.Bool().Draw(rt, "native"), Reqs: genSessionReqs(rt, 20)}
+		return partialMaskCase{Native: rapid.Bool().Draw(rt, "native"), Reqs: genSessionReqs(rt, 20), Dirs: rapid.IntRange(0, 3).Draw(rt, "dirs") == 0}
 	}, func(c partialMaskCase) *fail {
 		h.Case(evid.HashJSON(c), true, "partial-mask")
 		if h.WantSample("partial-mask") {
